@@ -7,7 +7,8 @@ import subprocess
 import sys
 root = os.path.dirname(os.path.dirname(os.path.abspath(__file__)))
 rules = subprocess.run([sys.executable, os.path.join(root, 'tools', 'rules_table.py')], capture_output=True, text=True, check=True).stdout
-rows = ['| seed | property | what the change does | needs, to manifest | reported by | own check |', '|---|---|---|---|---|---|']
+rows = ['| seed | property | what the change does | needs, to manifest | first evaluation (before any strengthening) | reported by (now) | own check |', '|---|---|---|---|---|---|---|']
+first_own = first_any = 0
 n = own = anyc = 0
 for f in sorted(glob.glob(os.path.join(root, 'seeded', '*', 'meta.json'))):
     m = json.load(open(f))
@@ -20,9 +21,15 @@ for f in sorted(glob.glob(os.path.join(root, 'seeded', '*', 'meta.json'))):
     for pre in (m['id'] + ' - ', m['id'] + ': ', 'Seed ' + m['id'] + ' - ', 'seeded defect: ', 'seeded defect notes'):
         title = title.replace(pre, '')
     needs = m.get('needs_short') or (m['needs_to_manifest'][:160] + '...')
-    rows.append('| %s | %s | %s | %s | %s | %s |' % (m['id'], m['property'], title.strip().replace('|', '/'), needs.replace('|', '/'), '; '.join(by).replace('|', '/') or '**not reported** - ' + m.get('remark', '').replace('|', '/'), 'yes' if o else ('other property' if by else 'no')))
+    fe = m.get('first_evaluation_detected_by')
+    if fe is None:
+        fe = [b.split(' ')[0] for b in by]
+    first_own += any(x.startswith(m['property'] + '.') for x in fe)
+    first_any += bool(fe)
+    rows.append('| %s | %s | %s | %s | %s | %s | %s |' % (m['id'], m['property'], title.strip().replace('|', '/'), needs.replace('|', '/'), ', '.join(sorted(set(fe))) or 'not reported',
+                '; '.join(by).replace('|', '/') or '**not reported** - ' + m.get('remark', '').replace('|', '/'), 'yes' if o else ('other property' if by else 'no')))
 rows.append('')
-rows.append('%d seeds kept; %d reported by the check of their own property, %d reported by some check, %d not reported.' % (n, own, anyc, n - anyc))
+rows.append('%d seeds kept. At first evaluation (checks as they were when the seed arrived): %d reported by the check of their own property, %d by some check, %d not reported. Now: %d by their own check, %d by some check, %d not reported.' % (n, first_own, first_any, n - first_any, own, anyc, n - anyc))
 p = os.path.join(root, 'DESIGN.md')
 s = open(p).read()
 
